@@ -38,6 +38,11 @@ time_t __real_time(time_t*);
 struct tm* __real_localtime_r(const time_t*, struct tm*);
 }
 
+// value of the guarded hook in /repo/src/library.cpp (0 = the shipped 1 MiB)
+extern "C" {
+uint64_t gdstk_verif_oas_buffer_size = 0;
+}
+
 namespace sim {
 
 World* W = nullptr;
